@@ -355,7 +355,31 @@ func isComparable(v Value) bool {
 	case nil, int64, string, bool:
 		return true
 	}
-	return reflect.TypeOf(v).Comparable()
+	return comparableValue(reflect.ValueOf(v))
+}
+
+// comparableValue looks at the value, not only at its type: an array or struct
+// type with interface elements is comparable, a value of it holding a slice is not
+func comparableValue(v reflect.Value) bool {
+	switch v.Kind() {
+	case reflect.Slice, reflect.Map, reflect.Func:
+		return false
+	case reflect.Interface:
+		return v.IsNil() || comparableValue(v.Elem())
+	case reflect.Array:
+		for i := 0; i < v.Len(); i++ {
+			if !comparableValue(v.Index(i)) {
+				return false
+			}
+		}
+	case reflect.Struct:
+		for i := 0; i < v.NumField(); i++ {
+			if !comparableValue(v.Field(i)) {
+				return false
+			}
+		}
+	}
+	return true
 }
 
 func comparisonBetween(_ *Ctx, params []Value) (Value, error) {
